@@ -902,8 +902,14 @@ class S3FileSystem(FileSystem):
         bucket, key = self.get_bucket_and_key(path)
         paginator = self.s3_raw.get_paginator("list_objects_v2")
         pages = paginator.paginate(Bucket=bucket, Prefix=key)
+        # A key prefix also matches siblings that merely share the name prefix
+        # (e.g. `dir2/file` or `dir.bak` for `dir`). Only keep the directory's own
+        # marker object (see `mkdir()`) and the keys below it.
+        dir_key = key.rstrip("/")
         for page in pages:
             for obj in page.get("Contents", []):
+                if dir_key and obj["Key"] != dir_key and not obj["Key"].startswith(dir_key + "/"):
+                    continue
                 yield hash_struct(
                     ["File", "s3", os.path.join("s3://", bucket, obj["Key"]), obj["ETag"]]
                 )
